@@ -360,8 +360,12 @@ func runC03(c *Ctx) {
 		// disk write uses the recorded index
 		okDisk := false
 		for _, call := range callsNamed(fn, "putChainedAddress") {
-			_, f1, _, ok1 := fieldOf(call.Call.Args[5])
-			_, f2, _, ok2 := fieldOf(call.Call.Args[6])
+			a1, a2 := p.argNamed(call, "branch", 5), p.argNamed(call, "index", 6)
+			if a1 == nil || a2 == nil {
+				continue
+			}
+			_, f1, _, ok1 := fieldOf(a1)
+			_, f2, _, ok2 := fieldOf(a2)
 			okDisk = ok1 && ok2 && f1 == "branch" && f2 == "index"
 		}
 		c.Check("C03-R4", "disk-index-is-recorded-index:"+fnn, fn.Pos(), okDisk, fnn+" does not persist the recorded (branch, index) of each issued address")
